@@ -278,7 +278,8 @@ def role_decl(role, name):
                 {'cp/' + name: 'copy\n'}, ['cp/' + name], 'cp/' + name)
     if role == 'csrc':
         # a compiled source: the object's name derives from it and is handed to the link rule
-        return (["default(executable('cs', [%r]))" % (name + '.c')], {name + '.c': 'int main(){return 0;}\n'},
+        return (["default(executable('cs', [%r]))" % (name + '.c')],
+                {name + '.c': '#include "csrc_plain.h"\nint main(){return 0;}\n', 'csrc_plain.h': '#define P 1\n'},
                 ['cs', 'cs.int/' + name + '.o'], name + '.c')
     raise KeyError(role)
 
@@ -350,6 +351,17 @@ def run_roles(root, backend, name, roles):
         elif ran != set(expect[r]):
             res[r] = 'after modifying %r the build re-made %r, expected %r' % (prereq[r], sorted(ran),
                                                                                  expect[r])
+        elif r == 'csrc':
+            # the oddly named OBJECT's compiler-written depfile must be read back: a plainly named
+            # header it includes changes
+            proj.modify(os.path.join(pr.src, 'csrc_plain.h'))
+            rc, out, recs = pr.run([])
+            ran = set()
+            for s in proj.steps_of(recs):
+                ran |= {os.path.relpath(o, pr.bld) for o in s['outputs']}
+            if rc != 0 or ran != set(expect[r]):
+                res[r] = ('after modifying the header csrc_plain.h included by %r the build re-made %r, expected %r'
+                          % (prereq[r], sorted(ran), expect[r]))
     rc, out, recs = pr.run(['clean'])
     left = product_files(pr.bld)
     if rc != 0:
@@ -361,7 +373,7 @@ def run_roles(root, backend, name, roles):
     if not os.path.exists(os.path.join(pr.bld, infra)):
         return {r: (res[r] or 'clean removed the build file') for r in roles}
     src_after = proj.contents(pr.src)
-    mod = {prereq[r] for r in roles}
+    mod = {prereq[r] for r in roles} | {'csrc_plain.h'}
     if {k: v for k, v in src_after.items() if k not in mod} != \
             {k: v for k, v in src_before.items() if k not in mod}:
         return {r: (res[r] or 'the source tree was changed') for r in roles}
